@@ -395,6 +395,7 @@ func jsonNames(t reflect.Type) map[string]bool {
 	if val, ok := jsonNamesMap.Load(t); ok {
 		return val.(map[string]bool)
 	}
+	verifPoint("cache-miss:jsonNames")
 	m := map[string]bool{}
 	for i := range t.NumField() {
 		field := t.Field(i)
